@@ -45,4 +45,14 @@ META = {
         "technique": "Coq proof (induction on steps/fuel, div/mod arithmetic, field on Q) + scripted-stepper correspondence incl. raw-tape replay of swap phases",
         "design_ref": "DESIGN.md §3 C17",
     },
+    "C10": {
+        "text": "Coq theorems: a pair is exchanged with probability exactly min(1, p_swap) (exact distribution of the swap program, any p_swap); an exchange moves only operator string and "
+                "state; the counter counts accepted exchanges; all replicas share the ladder-maximum cutoff; the temperature factor equals the ratio of the beta^n weight factors. "
+                "The model's p_swap (bond-count formula incl. the Hamiltonian ratio and the HamInfo equality shortcut) is tied to the code by replaying serial and rayon tempering steps of real "
+                "Ising ladders (2..8 replicas, unequal cutoffs) on the container's raw RNG words, and by bisecting the uniform at which an exchange flips and comparing it with the model to 2^-40.",
+        "note": "Trusted: Coq kernel + vm_compute; Model/Tempering.v transcription; an oracle recomputes W_a(C_b)W_b(C_a)/(W_a(C_a)W_b(C_b)) op by op in Rust and compares with the measured swap probability. "
+                "The identity p_swap = that ratio is proved for the beta factor; for the Hamiltonian factor it currently rests on the oracle + correspondence (see DESIGN.md).",
+        "technique": "Coq proof (exact denotation of the swap program, Qpower algebra) + raw-tape replay and threshold bisection against real tempering containers",
+        "design_ref": "DESIGN.md §3 C10",
+    },
 }
